@@ -29,6 +29,7 @@ func (c *Ctx) evalCall(st *State, x *ast.CallExpr) Val {
 	case *ast.Ident:
 		switch o := c.pkg.info.ObjectOf(f).(type) {
 		case *types.Builtin:
+			c.checkAtCallKeys(st, x, []string{o.Name()})
 			return c.evalBuiltin(st, x, o.Name())
 		case *types.Func:
 			return c.callStatic(st, x, o, nil, nil)
